@@ -95,4 +95,6 @@ package ice
 //@   props C17
 //@   opt nosafety
 //@   site store tcpPriorityOffset#1 assert the-configured-offset-zero-included-is-taken-as-is: value == old(offset)
+//@   ensures an-agent-under-construction-takes-the-option: !old(a.constructed) ==> result == nil && a.tcpPriorityOffset == old(offset)
+//@   ensures a-constructed-agent-refuses-it-and-keeps-its-offset: old(a.constructed) ==> result != nil && a.tcpPriorityOffset == old(a.tcpPriorityOffset)
 
